@@ -83,6 +83,24 @@ static void plain_case(int f, std::size_t d, std::size_t Mper)
         .i("value", mono_scaled(r.results()[0].value(), 20)).i("plain", 1).emit();
 }
 
+// ---- many dimensions: the weight of a point on the default grid is exactly one, however many dimensions and bins
+template <typename T>
+static void vegas_highdim(std::size_t d, std::size_t bins)
+{
+    std::vector<std::size_t> M(d, 1);
+    M[0] = 2;
+    auto fn = [](hep::vegas_point<T> const&) { return T(1); };
+    auto chk = hep::make_vegas_chkpt<T, script_engine>(bins, T(1.5), lattice(M, false));
+    using C = decltype(chk);
+    auto r = hep::vegas(hep::make_integrand<T>(fn, d), std::vector<std::size_t>{2}, chk, hep::callback<C>(hep::callback_mode::silent));
+    T sum = r.results()[0].sum();
+    bool ex = std::isfinite(sum) && is_exact_scaled(sum, 12);
+    // reported as the one-bin case of the specification: any uniform grid is the identity map
+    ev("VLat").s("T", type_name<T>::get()).i("d", (long long) d).i("B", 1).i("G", 2).a("gx", std::vector<int>{0, 2}).i("f", f_one).i("indb", 1)
+        .i("M", 2).i("N", 2).i("exact", ex ? 1 : 0).i("sum", ex ? exact_scaled(sum, 12) : -1).i("value", ex ? mono_scaled(r.results()[0].value(), 20) : -1)
+        .i("bins", (long long) bins).emit();
+}
+
 // ---- multi channel: channels are piecewise linear maps given by two-bin grids [0, k/4, 1]
 template <typename T>
 static T mc_lattice(std::vector<int> const& ks, std::vector<T> const& weights, T minw, int f, T jac, std::size_t Mu, std::size_t Ms, std::vector<T>* used = nullptr)
@@ -140,10 +158,10 @@ static void mc_cases(rng& g, bool thorough)
     // made of them; they are multiples of 1/11, 1/4, 1/21, so a symmetric lattice of M = lcm(24, denominator) points per number
     // has no selector point on a cumulative boundary and the integral must be right to rounding
     struct fam { double w[3]; double minw; std::size_t M; };
-    static fam const fams[3] = {{{0.9, 0.05, 0.05}, 0.1, 264}, {{2, 1, 1}, 0.0, 24}, {{0.95, 0.05, 0.0}, 0.1, 168}};
-    for (int k = 0; k != (thorough ? 18 : 6); ++k)
+    static fam const fams[4] = {{{0.9, 0.05, 0.05}, 0.1, 264}, {{2, 1, 1}, 0.0, 24}, {{0.95, 0.05, 0.0}, 0.1, 168}, {{0.05, 0.05, 0.9}, 0.1, 264}};
+    for (int k = 0; k != (thorough ? 24 : 8); ++k)
     {
-        fam const& fm = fams[k % 3];
+        fam const& fm = fams[k % 4];
         std::vector<int> ks{1 + (int) g.below(3), 1 + (int) g.below(3), 1 + (int) g.below(3)};
         std::vector<T> w{T(fm.w[0]), T(fm.w[1]), T(fm.w[2])};
         for (int f = 0; f != 3; ++f)
@@ -217,6 +235,8 @@ int main(int argc, char** argv)
         vegas_case<double>({{0, a, b, 8, 8}, {0, c, e, e, 8}}, 8, (int) g.below(4), 1, 8);
         vegas_case<float>({{0, a, 8}, {0, c, 8}}, 8, (int) g.below(4), 1, 4);
     }
+    vegas_highdim<float>(20, 128); vegas_highdim<float>(30, 64); vegas_highdim<double>(110, 1024); vegas_highdim<double>(40, 128);
+    vegas_highdim<long double>(200, 512); vegas_highdim<float>(8, 4096);
     for (int f = 0; f != 4; ++f) { plain_case<double>(f, 1 + (std::size_t) (f % 2), 8); plain_case<float>(f, 2, 4); plain_case<long double>(f, 3, 4); }
     mc_cases<double>(g, thorough);
     mc_cases<float>(g, thorough);
